@@ -1023,6 +1023,699 @@ def handle_param_program(chk, expr):
         chk.fail(*res)
 
 
+# ------------------------------------------------------------------------------------------------
+# histories of the registry machine (Model/C01Reg.lean): per-circuit parameter registry, duplicate-name RuntimeError
+# (also in the middle of the loop), assign / compute_unitary(assign=...), undefined parameters at evaluation time,
+# copy() / copy(subs=...) with fresh Parameter objects.  The history is sent to the Lean driver ({"rhist": ...}) and run
+# with the real API; after every operation the outcome class, the registry of the touched circuit (names, order,
+# object identity), `defined`, the set of parameters of the reachable leaves and the values of all Parameter objects
+# are compared; evaluations are compared as matrices.  Direct oracles on the real objects: ordered product of the
+# leaves' own matrices; a Python mirror that resolves references and, for copies, reads frozen / substituted / fresh
+# values; registry = parameters of the reachable leaves while no add failed and nothing grew after being nested;
+# copy fails iff two slots left variable share a name; evaluation fails iff a reachable leaf has an undefined parameter.
+# ------------------------------------------------------------------------------------------------
+RH_NAMES = 3
+RH_BRANCHES = ["rh-copy-subs-through-reference", "rh-add-runtime", "rh-leaf-ctor-runtime", "rh-stale-after-failed-add", "rh-growth-after-nesting",
+               "rh-keyerror", "rh-assign-ok", "rh-assign-through-compute-unitary", "rh-eval-undefined", "rh-eval-ok-bound",
+               "rh-copy-fresh", "rh-copy-runtime", "rh-copy-subs-symbol", "rh-copy-subs-by-name-ignored",
+               "rh-copy-of-copy", "rh-eval-copy-fresh-assigned", "rh-exact-checked", "rh-assertion", "rh-merge", "rh-nest"]
+
+
+def gen_reg_history(rng, n_ops, max_m):
+    nvars = rng.randint(2, 5)
+    names = [rng.randrange(RH_NAMES) for _ in range(nvars)]
+    if rng.random() < 0.5:
+        names[-1] = names[0]                      # two Parameter objects with one name
+    vals = []
+    while len(vals) < 3:
+        x = gen_value(rng)
+        if 0.05 < x < TWO_PI - 0.05 and all(abs(x - y) > 0.05 for y in vals):
+            vals.append(x)
+    init = [None if rng.random() < 0.55 else rng.randrange(3) for _ in range(nvars)]
+    ops, cells, nxt = [], {}, [0]
+
+    def new_cell(m=None, rank=None):
+        lab = nxt[0]
+        nxt[0] += 1
+        m = rng.randint(1, max_m) if m is None else m
+        rank = rng.randint(0, 3) if rank is None else rank
+        cells[lab] = (m, rank)
+        ops.append({"op": "new", "id": lab, "m": m, "rank": rank})
+
+    known = {}           # label -> pids bound by leaves added directly to that entry (approximate: used to aim, not to judge)
+
+    def ps_leaf(pid):
+        return {"t": "PS", "phi": gens.gen_cs(rng), "bind": {"phi": pid}}
+
+    def scenario(i):
+        """aimed sequences: each reaches a behaviour that random operations meet too rarely to be required of every run"""
+        m_i = cells[i][0]
+        kind = rng.choice(["stale", "copy-runtime", "fresh-assigned", "subs"])
+        if kind == "stale":
+            # add(PS(c)); add(BS(theta=a, phi_tl=b)) with b another parameter named like c: the loop registers a, then raises
+            trip = [(a, b, c) for c in range(nvars) for b in range(nvars) for a in range(nvars)
+                    if b != c and names[b] == names[c] and names[a] != names[c]]
+            if trip:
+                a, b, c = rng.choice(trip)
+                z = nxt[0]
+                new_cell(rng.randint(2, 3), rng.randint(0, 3))
+                ops.append({"op": "leaf", "i": z, "off": 0, "leaf": ps_leaf(c), "h": 0, "how": "int"})
+                leaf = gens.gen_leaf(rng, 2, kinds=("BS",))
+                leaf["bind"] = {"theta": a, "tl": b}
+                ops.append({"op": "leaf", "i": z, "off": 0, "leaf": leaf, "h": 0, "how": rng.choice(["int", "ifd"])})
+                known.setdefault(z, set()).update((a, c))
+                ops.append({"op": "assign", "i": z, "h": 0, "a": [[names[a], rng.randrange(3)]], "via": "assign"})
+        elif kind == "copy-runtime":
+            p = rng.choice(sorted(known[i])) if known.get(i) else rng.randrange(nvars)
+            for _ in range(1 if known.get(i) else 2):
+                ops.append({"op": "leaf", "i": i, "off": rng.randint(0, m_i - 1), "leaf": ps_leaf(p), "h": 0, "how": "int"})
+            known.setdefault(i, set()).add(p)
+            ops.append({"op": "setv", "p": p, "x": None})
+            lab = nxt[0]
+            nxt[0] += 1
+            cells[lab] = cells[i]
+            ops.append({"op": "copy", "i": i, "id": lab, "h": 0, "form": "none", "subs": {}})
+        elif kind == "subs":
+            # one undefined parameter in two slots: copy() raises, copy(subs={symbol: value}) does not; half of the time the
+            # slots sit in a sub-circuit held by reference (the substitution has to travel through the nested copy)
+            p = rng.randrange(nvars)
+            z = nxt[0]
+            new_cell(rng.randint(1, 2), rng.randint(0, 1))
+            for _ in range(rng.randint(1, 2)):
+                ops.append({"op": "leaf", "i": z, "off": 0, "leaf": ps_leaf(p), "h": 0, "how": "int"})
+            known.setdefault(z, set()).add(p)
+            src = z
+            if rng.random() < 0.5:
+                src = nxt[0]
+                new_cell(cells[z][0] + rng.randint(0, 1), cells[z][1] + 1)
+                ops.append({"op": "sub", "i": src, "j": z, "off": cells[src][0] - cells[z][0], "h": 0, "hj": 0,
+                            "how": rng.choice(["nest", "nest", "merge"])})
+                known[src] = {p}
+            ops.append({"op": "setv", "p": p, "x": None})
+            lab = nxt[0]
+            nxt[0] += 1
+            cells[lab] = cells[src]
+            ops.append({"op": "copy", "i": src, "id": lab, "h": 0, "form": "sym", "subs": {str(names[p]): rng.randrange(3)}})
+            ops.append({"op": "eval", "i": lab, "h": 0})
+        else:
+            p = rng.randrange(nvars)
+            z = nxt[0]
+            new_cell(rng.randint(1, 2), rng.randint(0, 1))
+            ops.append({"op": "leaf", "i": z, "off": 0, "leaf": ps_leaf(p), "h": 0, "how": "int"})
+            known.setdefault(z, set()).add(p)
+            src = z
+            if rng.random() < 0.5:
+                src = nxt[0]
+                new_cell(cells[z][0] + rng.randint(0, 1), cells[z][1] + 1)
+                ops.append({"op": "sub", "i": src, "j": z, "off": cells[src][0] - cells[z][0], "h": 0, "hj": 0,
+                            "how": rng.choice(["nest", "nest", "merge"])})
+                known[src] = {p}
+            ops.append({"op": "setv", "p": p, "x": None})
+            lab = nxt[0]
+            nxt[0] += 1
+            cells[lab] = cells[src]
+            known[lab] = {p}
+            ops.append({"op": "copy", "i": src, "id": lab, "h": 0, "form": rng.choice(["none", "str"]), "subs": {}})
+            ops.append({"op": "assign", "i": lab, "h": 0, "a": [[names[p], rng.randrange(3)]], "via": "cu"})
+            ops.append({"op": "eval", "i": lab, "h": 0})
+
+    top = rng.randint(2, max_m)
+    new_cell(top, 3)
+    new_cell(rng.randint(1, top), rng.randint(0, 2))
+    if rng.random() < 0.5:
+        new_cell()
+    for _ in range(n_ops):
+        r = rng.random()
+        i = rng.choice(list(cells))
+        m_i, rank_i = cells[i]
+        h = rng.randrange(4)
+        if rng.random() < 0.06:
+            scenario(i)
+            continue
+        if r < 0.13:
+            ops.append({"op": "eval", "i": i, "h": h})
+        elif r < 0.24:
+            lab = nxt[0]
+            nxt[0] += 1
+            cells[lab] = cells[i]
+            known[lab] = set(known.get(i, ()))
+            form = rng.choice(["none", "none", "sym", "sym", "sym", "str", "list"])
+            subs = {} if form == "none" else {str(n): rng.randrange(3)
+                                              for n in rng.sample(range(RH_NAMES), rng.randint(1, 2))}
+            ops.append({"op": "copy", "i": i, "id": lab, "h": h, "form": form, "subs": subs})
+        elif r < 0.27:
+            new_cell()
+        elif r < 0.38:
+            ops.append({"op": "setv", "p": rng.randrange(nvars), "x": (None if rng.random() < 0.3 else rng.randrange(3))})
+        elif r < 0.51:
+            pool_n = sorted({names[q] for q in known.get(i, ())})
+            if pool_n and rng.random() < 0.7:
+                ns = rng.sample(pool_n, rng.randint(1, min(2, len(pool_n))))
+            else:
+                ns = rng.sample(range(RH_NAMES), rng.randint(1, 2))
+            ops.append({"op": "assign", "i": i, "h": h, "a": [[n, rng.randrange(3)] for n in ns],
+                        "via": rng.choice(["assign", "cu", "cu"])})
+        elif r < 0.54:
+            ops.append({"op": "barrier", "i": i, "h": h})
+        else:
+            bad = rng.random() < 0.04
+            cands = [j for j in cells if cells[j][1] < rank_i and (cells[j][0] <= m_i or bad)]
+            if cands and rng.random() < 0.4:
+                j = rng.choice(cands)
+                w = cells[j][0]
+                off = (max(0, m_i - w) + rng.randint(1, 2)) if bad else rng.randint(0, m_i - w)
+                known.setdefault(i, set()).update(known.get(j, ()))
+                ops.append({"op": "sub", "i": i, "j": j, "off": off, "h": h, "hj": rng.randrange(4),
+                            "how": rng.choice(["nest", "nest", "merge", "ifd", "fd", "imm"])})
+            else:
+                leaf = gens.gen_leaf(rng, m_i, kinds=("BS", "PS", "PS", "PERM", "U"))
+                if leaf["t"] in ANGLES and rng.random() < 0.85:
+                    angles = ANGLES[leaf["t"]]
+                    pids = rng.sample(range(nvars), rng.randint(1, min(2, nvars)))
+                    leaf["bind"] = {a: rng.choice(pids) for a in rng.sample(angles, rng.randint(1, min(3, len(angles))))}
+                    if not bad:
+                        known.setdefault(i, set()).update(leaf["bind"].values())
+                w = gens.leaf_width(leaf)
+                off = (m_i - w + rng.randint(1, 2)) if bad else rng.randint(0, m_i - w)
+                ops.append({"op": "leaf", "i": i, "off": off, "leaf": leaf, "h": h,
+                            "how": rng.choice(["int", "int", "ifd", "fd", "imm"])})
+    ops += [{"op": "eval", "i": i, "h": 0} for i in cells]
+    return {"names": names, "vals": vals, "init": init, "ops": ops}
+
+
+def leaf_slots(spec):
+    """pids of the variable slots of a leaf spec, in the order of the component's parameter slots"""
+    bind = spec.get("bind") or {}
+    return [bind[a] for a in ANGLES.get(spec["t"], ()) if a in bind]
+
+
+def run_reg_history(chk, hist, count=True):
+    """-> failure tuple or None"""
+    import itertools
+    import perceval as pcvl
+    import sympy as sp
+    uid = run_reg_history.uid = getattr(run_reg_history, "uid", 0) + 1
+    names, VALS = hist["names"], hist["vals"]
+    nvars = len(names)
+    where = {"reg_history": hist}
+
+    def pname(n):
+        return f"r{uid}n{n}"
+
+    def nidx(name):
+        return int(name.rsplit("n", 1)[1])
+
+    params = [pcvl.P(pname(names[k])) for k in range(nvars)]
+    for p, x in zip(params, hist["init"]):
+        if x is not None:
+            p.set_value(VALS[x])
+    objs = list(params)                          # model pid -> Parameter object (copies append their new objects)
+    pid_of = {id(p): k for k, p in enumerate(params)}
+
+    def val_idx(p):
+        if not p.defined:
+            return None
+        x = float(p)
+        for k, y in enumerate(VALS):
+            if abs(x - y) < 1e-9:
+                return k
+        return -1
+
+    idx, handles, mirror = {}, [], []            # mirror[i] = [m, items]; item = (off, ('leaf', spec, res) | ('ref', j) | ('tree', node))
+    referenced = set()
+    state = {"clean": True, "safe": True}
+    lean_ops, expect = [], []
+    copies = set()
+
+    def bump(name):
+        if count:
+            chk.branch(name)
+
+    # ---- the mirror: matrices only --------------------------------------------------------------------------------
+    def rvalue(r):
+        if r[0] == "val":
+            return r[1]
+        if r[0] == "pid":
+            p = params[r[1]]
+        else:
+            p = handles[r[1]][0].vars.get(pname(r[2]))
+            if p is None:
+                return None
+        return float(p) if p.defined else None
+
+    def rname(r):
+        return names[r[1]] if r[0] == "pid" else r[2]
+
+    def resolve(i):
+        m, items = mirror[i]
+        subs = []
+        for off, it in items:
+            if it[0] == "leaf":
+                subs.append((off, ("L", it[1], it[2])))
+            elif it[0] == "ref":
+                subs.append((off, resolve(it[1])))
+            else:
+                subs.append((off, it[1]))
+        return ("C", m, subs)
+
+    def mirror_matrix(node):
+        """numpy product of the embedded leaf matrices under the current values; None if a leaf parameter is undefined"""
+        if node[0] == "L":
+            spec, res = node[1], node[2]
+            if not res:
+                return fresh_matrix(spec, {})
+            vals = {pid: rvalue(r) for pid, r in res.items()}
+            if any(v is None for v in vals.values()):
+                return None
+            return fresh_matrix(spec, vals)
+        m = node[1]
+        u = np.eye(m, dtype=complex)
+        for off, sub in node[2]:
+            su = mirror_matrix(sub)
+            if su is None:
+                return None
+            k = su.shape[0]
+            e = np.eye(m, dtype=complex)
+            e[off:off + k, off:off + k] = su
+            u = e @ u
+        return u
+
+    def mirror_flat(node, base=0):
+        if node[0] == "L":
+            return [[base, gens.leaf_width(node[1])]]
+        out = []
+        for off, sub in node[2]:
+            out.extend(mirror_flat(sub, base + off))
+        return out
+
+    def freeze(node, newcell, form, subs):
+        if node[0] == "L":
+            res = {}
+            for pid, r in node[2].items():
+                v = rvalue(r)
+                n = None if r[0] == "val" else rname(r)
+                if v is not None:
+                    res[pid] = ("val", v)
+                elif form == "sym" and str(n) in subs:
+                    res[pid] = ("val", VALS[subs[str(n)]])
+                else:
+                    res[pid] = ("cname", newcell, n)
+            return ("L", node[1], res)
+        return ("C", node[1], [(off, freeze(sub, newcell, form, subs)) for off, sub in node[2]])
+
+    # ---- observations of the real objects -------------------------------------------------------------------------
+    def slot_params(c):
+        """variable Parameter objects of the leaves met by iteration, one per slot, in order"""
+        out = []
+        for _, comp in c:
+            for k in comp.params:
+                p = comp.param(k)
+                if not p.fixed:
+                    out.append(p)
+        return out
+
+    def observe(i):
+        c = handles[i][0]
+        ps = c.get_parameters()
+        return {"reg": [[pid_of.get(id(p), -1), nidx(p.name)] for p in ps],
+                "keys": [nidx(k) for k in c.params], "vars": sorted(nidx(k) for k in c.vars),
+                "defined": bool(c.defined), "occ": sorted({pid_of.get(id(p), -1) for p in slot_params(c)}),
+                "env": [val_idx(p) for p in objs]}
+
+    def direct_registry_checks(step):
+        """theorems registry_exact / reachable_name_determines_parameter read on the real objects"""
+        if not (state["clean"] and state["safe"]):
+            return None
+        bump("rh-exact-checked")
+        for n, hs in enumerate(handles):
+            c = hs[0]
+            reg = {id(p) for p in c.get_parameters()}
+            reach = slot_params(c)
+            if reg != {id(p) for p in reach}:
+                return ("violation", "registry-not-reachable-parameters",
+                        f"after operation #{step} (no add failed, nothing grew after being nested) the parameters registered "
+                        f"in pool entry {n} {sorted(p.name for p in c.get_parameters())} are not the variable parameters of "
+                        f"its leaves {sorted({p.name for p in reach})}", where)
+            by_name = {}
+            for p in reach:
+                if by_name.setdefault(p.name, p) is not p:
+                    return ("violation", "two-parameters-one-name-in-circuit",
+                            f"after operation #{step} pool entry {n} reaches two different Parameter objects named {p.name} "
+                            f"although no circuit grew after being nested", where)
+        return None
+
+    def outcome_of(fn):
+        try:
+            return fn(), "ok", None
+        except AssertionError:
+            return None, "assertion", None
+        except RuntimeError as e:
+            if "two parameters with the same name" not in str(e):
+                return None, "other", e
+            return None, "runtime", None
+        except KeyError:
+            return None, "key", None
+        except Exception as e:
+            return None, "other", e
+
+    for step, op in enumerate(hist["ops"]):
+        k = op["op"]
+        if k == "new":
+            lean_ops.append({"new": op["m"], "rank": op["rank"]})
+            obj, st, exc = outcome_of(lambda: pcvl.Circuit(op["m"]))
+            if st != ("ok" if op["m"] > 0 else "assertion"):
+                return ("violation", "operation-raises", f"operation #{step}: Circuit({op['m']}) -> {st} {exc}", where)
+            if obj is not None:
+                idx[op["id"]] = len(handles)
+                handles.append([obj])
+                mirror.append([op["m"], []])
+                expect.append((step, st, observe(len(handles) - 1), None))
+            else:
+                expect.append((step, st, None, None))
+            continue
+        if k == "setv":
+            if op["p"] >= nvars:
+                continue
+            p = params[op["p"]]
+            if op["x"] is None:
+                p.reset()
+            else:
+                p.set_value(VALS[op["x"]])
+            lean_ops.append({"setv": op["p"], "x": op["x"]})
+            expect.append((step, "ok", None, None))
+            continue
+        if op["i"] not in idx or (k == "sub" and op["j"] not in idx):
+            continue
+        i = idx[op["i"]]
+        m_i = mirror[i][0]
+        hs = handles[i]
+        me = hs[op.get("h", 0) % len(hs)]
+        if k == "barrier":
+            lean_ops.append({"barrier": i})
+            _, st, exc = outcome_of(me.barrier)
+            if st != "ok":
+                return ("violation", "operation-raises", f"operation #{step}: barrier() -> {st} {exc}", where)
+            mirror[i][1].append((0, ("tree", ("L", {"t": "Barrier", "m": m_i}, {}))))
+            expect.append((step, "ok", observe(i), None))
+        elif k in ("leaf", "sub"):
+            how, off = op["how"], op["off"]
+            if k == "leaf":
+                spec = op["leaf"]
+                bind = spec.get("bind") or {}
+                if any(v >= nvars for v in bind.values()):
+                    continue
+                slots = leaf_slots(spec)
+                obj, st, exc = outcome_of(lambda: bound_leaf(spec, None, params))
+                want_ctor = "ok"
+                seen = {}
+                for pid in slots:
+                    if seen.setdefault(names[pid], pid) != pid:
+                        want_ctor = "runtime"
+                if st == "other" or st != want_ctor:
+                    return ("violation", "component-constructor-outcome",
+                            f"operation #{step}: building the elementary component gave {st} {exc or ''}, two different "
+                            f"parameters with one name in it: {want_ctor == 'runtime'}", where)
+                w = gens.leaf_width(spec)
+                dist = sorted(set(slots))
+                tab = []
+                for combo in itertools.product(range(len(VALS)), repeat=len(dist)):
+                    vmap = {p: VALS[c] for p, c in zip(dist, combo)}
+                    tab.append({"at": [combo[dist.index(p)] for p in slots],
+                                "U": core.mat(fresh_matrix(spec, vmap).tolist())})
+                body = {"leaf": i, "off": off, "k": w, "slots": slots, "tab": tab}
+                if st == "runtime":
+                    bump("rh-leaf-ctor-runtime")
+                    lean_ops.append(body)
+                    expect.append((step, "runtime", observe(i), None))
+                    continue
+                new_items = [(off, ("leaf", spec, {p: ("pid", p) for p in dist}))]
+                merge_like, j = False, None
+            else:
+                j = idx[op["j"]]
+                hj = handles[j]
+                obj = hj[op["hj"] % len(hj)]
+                w = mirror[j][0]
+                merge_like = how != "nest"
+                body = {("merge" if merge_like else "nest"): i, "j": j, "off": off}
+                if merge_like and mirror[j][1]:
+                    new_items = [(off + o, it) for o, it in mirror[j][1]]
+                else:
+                    new_items = [(off, ("ref", j))]
+            if i in referenced:
+                state["safe"] = False
+                bump("rh-growth-after-nesting")
+            n_model = 1
+            if how == "imm":
+                lean_ops.append({"barrier": i})
+                n_model = 2
+            lean_ops.append(body)
+            if how in ("int", "nest"):
+                fn = (lambda: me.add(off, obj)) if k == "leaf" else (lambda: me.add(off, obj, merge=False))
+            elif how == "merge":
+                fn = lambda: me.add(off, obj, merge=True)
+            elif how == "ifd":
+                fn = lambda: me.__ifloordiv__((off, obj))
+            elif how == "fd":
+                fn = lambda: me // (off, obj)
+            else:
+                fn = lambda: me.__imatmul__((off, obj))
+            res, st, exc = outcome_of(fn)
+            if st == "other" or st == "key":
+                return ("violation", "operation-raises",
+                        f"operation #{step} of the history raised {type(exc).__name__ if exc else 'KeyError'}: {str(exc)[:120]}",
+                        where)
+            admissible = off + w <= m_i
+            if (st == "assertion") != (not admissible):
+                return ("violation", "accepts-inadmissible-program" if admissible is False else "rejects-admissible-program",
+                        f"operation #{step}: range admissible = {admissible}, outcome {st}", where)
+            if how == "imm":
+                mirror[i][1].append((0, ("tree", ("L", {"t": "Barrier", "m": m_i}, {}))))
+                expect.append((step, "ok", None, None))
+            if st == "ok":
+                mirror[i][1].extend(new_items)
+                if new_items and new_items[0][1][0] == "ref" and k == "sub" and new_items[0][1][1] == j:
+                    referenced.add(j)
+                if how == "fd":
+                    hs.append(res)
+                if k == "sub":
+                    bump("rh-merge" if merge_like else "rh-nest")
+            elif st == "runtime":
+                state["clean"] = False
+                bump("rh-add-runtime")
+            else:
+                bump("rh-assertion")
+            ob = observe(i)
+            if st == "runtime" and set(p for p, _ in ob["reg"]) - set(ob["occ"]):
+                bump("rh-stale-after-failed-add")
+            expect.append((step, st, ob, None))
+        elif k == "copy":
+            form, subs = op["form"], op["subs"]
+            if form == "none":
+                arg, msubs = None, []
+            elif form == "sym":
+                arg = {sp.Symbol(pname(int(n)), real=True): VALS[x] for n, x in subs.items()}
+                msubs = [[int(n), x] for n, x in subs.items()]
+            elif form == "str":
+                arg, msubs = {pname(int(n)): VALS[x] for n, x in subs.items()}, []       # keys are names: sympy never matches them
+            else:
+                arg, msubs = [pcvl.Parameter(pname(int(n)), VALS[x]) for n, x in subs.items()], []
+            sub_names = {int(n) for n in subs} if form == "sym" else set()
+            remaining = [nidx(p.name) for p in slot_params(me) if not p.defined and nidx(p.name) not in sub_names]
+            want = "runtime" if len(set(remaining)) < len(remaining) else "ok"
+            node = resolve(i)
+            lean_ops.append({"copy": i, "subs": msubs})
+            obj, st, exc = outcome_of((lambda: me.copy()) if arg is None else (lambda: me.copy(subs=arg)))
+            if st != want:
+                return ("violation", "copy-failure-set",
+                        f"operation #{step}: copy({'' if arg is None else 'subs=...'}) -> {st} {exc or ''}; the slots left variable "
+                        f"carry the names {remaining}: expected {want}", where)
+            if st == "runtime":
+                bump("rh-copy-runtime")
+                expect.append((step, "runtime", observe(i), None))
+                continue
+            n_new = len(handles)
+            idx[op["id"]] = n_new
+            handles.append([obj])
+            fresh = obj.get_parameters()
+            for p in fresh:
+                if id(p) in pid_of:
+                    return ("violation", "copy-shares-parameter-object",
+                            f"operation #{step}: the copy still holds the Parameter object {p.name} of the original", where)
+                pid_of[id(p)] = len(objs)
+                objs.append(p)
+            mirror.append([m_i, [(o, ("tree", freeze(sub, n_new, form, subs))) for o, sub in node[2]]])
+            if fresh:
+                bump("rh-copy-fresh")
+            if form == "sym" and any(nidx(p.name) in sub_names and not p.defined for p in slot_params(me)):
+                bump("rh-copy-subs-symbol")
+                if any(it[0] == "ref" for _, it in mirror[i][1]):
+                    bump("rh-copy-subs-through-reference")
+            if form in ("str", "list"):
+                bump("rh-copy-subs-by-name-ignored")
+            if i in copies:
+                bump("rh-copy-of-copy")
+            copies.add(n_new)
+            expect.append((step, "ok", observe(n_new), None))
+        elif k == "assign":
+            a = {pname(n): VALS[x] for n, x in op["a"]}
+            seen_n = {}
+            for n, x in op["a"]:                      # a dict: a repeated name keeps its first position and its last value
+                seen_n[n] = x
+            ma = [[n, x] for n, x in seen_n.items()]
+            lean_ops.append({"assign": i, "a": ma})
+            known = set(me.vars)
+            want = "ok" if all(key in known for key in a) else "key"
+            if op["via"] == "assign":
+                res, st, exc = outcome_of(lambda: me.assign(dict(a)))
+                u = None
+            else:
+                res, st, exc = outcome_of(lambda: np.array(me.compute_unitary(assign=dict(a)), dtype=complex))
+                u = res
+            if st == "other":
+                return ("violation", "operation-raises", f"operation #{step}: assign raised {exc}", where)
+            if want == "key":
+                if st != "key":
+                    return ("violation", "assign-unknown-name", f"operation #{step}: a name that is not registered gave {st}",
+                            where)
+                bump("rh-keyerror")
+                expect.append((step, "key", observe(i), None))
+                continue
+            bump("rh-assign-ok")
+            # the registered objects have the values
+            for key, x in a.items():
+                p = me.vars[key]
+                if not p.defined or abs(float(p) - x) > 1e-9:
+                    return ("violation", "assign-does-not-set-value", f"operation #{step}: after assign {key} is {p}", where)
+            if op["via"] == "assign":
+                expect.append((step, "ok", observe(i), None))
+            else:
+                bump("rh-assign-through-compute-unitary")
+                expect.append((step, "ok", observe(i), None))
+                want_u = mirror_matrix(resolve(i))
+                if (st == "assertion") != (want_u is None):
+                    return ("violation", "evaluation-failure-set",
+                            f"operation #{step}: compute_unitary(assign=...) -> {st}; a reachable leaf has an undefined parameter: "
+                            f"{want_u is None}", where)
+                lean_ops.append({"eval": i})
+                if st == "assertion":
+                    bump("rh-eval-undefined")
+                    expect.append((step, "assertion", observe(i), None))
+                else:
+                    if u.shape != want_u.shape or not np.allclose(u, want_u, rtol=core.TOL, atol=core.TOL):
+                        return ("violation", "matrix-ignores-parameter-value",
+                                f"operation #{step}: compute_unitary(assign=...) is not the product of the leaves under the "
+                                f"assigned values", where)
+                    expect.append((step, "ok", observe(i), (u, [[r[0], len(r)] for r, _ in me])))
+        elif k == "eval":
+            node = resolve(i)
+            want_u = mirror_matrix(node)
+            res, st, exc = outcome_of(lambda: np.array(me.compute_unitary(), dtype=complex))
+            if st in ("other", "key", "runtime"):
+                return ("violation", "evaluation-raises-after-history",
+                        f"operation #{step}: compute_unitary() raised {st} {exc or ''}", where)
+            undefined_leaf = any(not p.defined for p in slot_params(me))
+            if (st == "assertion") != undefined_leaf or (st == "assertion") != (want_u is None):
+                return ("violation", "evaluation-failure-set",
+                        f"operation #{step}: compute_unitary() -> {st}; a leaf met by iteration has an undefined parameter: "
+                        f"{undefined_leaf}; the mirror expects {'an error' if want_u is None else 'a matrix'}", where)
+            lean_ops.append({"eval": i})
+            if st == "assertion":
+                bump("rh-eval-undefined")
+                expect.append((step, "assertion", observe(i), None))
+                continue
+            u = res
+            flat = [[r[0], len(r)] for r, _ in me]
+            lit = np.eye(m_i, dtype=complex)
+            for r, c in me:
+                e = np.eye(m_i, dtype=complex)
+                e[r[0]:r[0] + len(r), r[0]:r[0] + len(r)] = np.array(c.compute_unitary(use_symbolic=False), dtype=complex)
+                lit = e @ lit
+            if not np.allclose(u, lit, rtol=core.TOL, atol=core.TOL):
+                return ("violation", "matrix-not-product-after-history",
+                        f"operation #{step}: compute_unitary() of pool entry {op['i']} differs from the ordered product of its "
+                        f"current parts", where)
+            if u.shape != want_u.shape or not np.allclose(u, want_u, rtol=core.TOL, atol=core.TOL) or \
+                    flat != mirror_flat(node):
+                if i in copies or any(n in copies for n in range(len(handles)) if n != i):
+                    return ("violation", "copy-not-original-under-substitution",
+                            f"operation #{step}: pool entry {op['i']} is not the product of the attached parts where a copied "
+                            f"part reads the values of copy time, the substituted values, or its own new parameters", where)
+                return ("violation", "matrix-ignores-parameter-value",
+                        f"operation #{step}: compute_unitary() of pool entry {op['i']} is not the product of the attached parts "
+                        f"under the current parameter values", where)
+            if slot_params(me):
+                bump("rh-eval-ok-bound")
+            if i in copies and any(id(p) in pid_of and pid_of[id(p)] >= nvars for p in slot_params(me)):
+                bump("rh-eval-copy-fresh-assigned")
+            expect.append((step, "ok", observe(i), (u, flat)))
+        bad = direct_registry_checks(step)
+        if bad:
+            return bad
+    # ---- the same history in the Lean registry machine ------------------------------------------------------------
+    rep = chk.lean.ask({"rhist": lean_ops, "names": names, "init": hist["init"]})
+    if "err" in rep:
+        return ("broken", "model-vs-code", f"the registry model rejects the history: {rep['err']}", where)
+    outs = rep["out"]
+    if len(outs) != len(expect):
+        return ("broken", "model-vs-code", "registry model reply out of step", where)
+    for o, (step, st, ob, ev) in zip(outs, expect):
+        if o["st"] != st:
+            return ("broken", "model-vs-code",
+                    f"operation #{step}: the real API gave {st!r}, the registry model {o['st']!r}; the direct oracles on the real "
+                    f"objects hold", where)
+        if ob is not None:
+            if o["reg"] != ob["reg"] or [n for _, n in o["reg"]] != ob["keys"] or sorted(n for _, n in o["reg"]) != ob["vars"]:
+                return ("broken", "model-vs-code",
+                        f"operation #{step}: registry (pid, name) of the real circuit {ob['reg']} (keys {ob['keys']}), of the "
+                        f"model {o['reg']}", where)
+            if sorted({p for p, _ in o["occ"]}) != ob["occ"]:
+                return ("broken", "model-vs-code",
+                        f"operation #{step}: parameters of the leaves met by iteration {ob['occ']}, model {o['occ']}", where)
+            if o["defined"] != ob["defined"]:
+                return ("broken", "model-vs-code", f"operation #{step}: `defined` is {ob['defined']}, model {o['defined']}", where)
+            if o["env"] != ob["env"]:
+                return ("broken", "model-vs-code",
+                        f"operation #{step}: values of the Parameter objects {ob['env']}, model {o['env']}", where)
+        if ev is not None:
+            u, flat = ev
+            mu = np.array(core.unmat(o["out"]["U"]), dtype=complex)
+            if mu.shape != u.shape or not np.allclose(u, mu, rtol=core.TOL, atol=core.TOL) or o["out"]["flat"] != flat:
+                return ("broken", "model-vs-code",
+                        f"operation #{step}: the registry model and the implementation disagree on the matrix / ranges of a "
+                        f"pool entry although the direct oracles agree with the implementation", where)
+    return None
+
+
+def handle_reg_history(chk, hist):
+    res = run_reg_history(chk, hist)
+    chk.count("reg_history_len", len(hist["ops"]) // 5 * 5)
+    chk.case(("R", tuple(hist["names"]), tuple((o["op"], o.get("i"), o.get("j"), o.get("off"), o.get("how"), o.get("form"),
+                                                 json.dumps(o.get("leaf", {}).get("bind"), sort_keys=True))
+                                                for o in hist["ops"])),
+             nontrivial=any(o["op"] == "copy" for o in hist["ops"]) and any(o["op"] == "assign" for o in hist["ops"]),
+             sample={"reg_history": {"names": hist["names"],
+                                     "ops": [(o["op"], o.get("i"), o.get("how") or o.get("form")) for o in hist["ops"]][:12]}})
+    if res is None:
+        return
+    kind, sig, what, replay = res
+    ops = list(hist["ops"])
+    budget = 120
+    i = 0
+    while i < len(ops) and budget > 0:
+        cand = dict(hist, ops=ops[:i] + ops[i + 1:])
+        budget -= 1
+        try:
+            r = run_reg_history(chk, cand, count=False)
+        except Exception:
+            r = None
+        if r is not None and r[1] == sig:
+            ops = cand["ops"]
+            kind, sig, what, replay = r
+        else:
+            i += 1
+    chk.fail(kind, sig, what, replay)
+
+
 def run(chk: core.Check):
     chk.rule = ("random construction programs (add int/tuple/list range, merge yes/no/default, //, //(i,c), @, "
                 "barrier, copy, leaf-started circuits, nested sub-circuits; 10% with one inadmissible range); "
@@ -1034,7 +1727,14 @@ def run(chk: core.Check):
                 "every evaluation compared (non-trivial = at least one sub-circuit added); small circuits are also evaluated "
                 "symbolically (quick: a share, thorough: all circuits of at most 4 modes), with values and with the variables "
                 "left symbolic and substituted afterwards; plus construction programs whose BS/PS leaves are bound to variable "
-                "parameters that receive values, and then other values, after assembly")
+                "parameters that receive values, and then other values, after assembly; plus histories of the registry "
+                "machine (Parameter objects some of which share a name, defined or not; leaves bound to them; add / nest / "
+                "merge / // / @= with the duplicate-name RuntimeError, also in the middle of the loop; set_value / reset; "
+                "assign and compute_unitary(assign=...) with registered and unregistered names; copy(), copy(subs=...) by "
+                "symbol, by name, by list; evaluation with undefined parameters) sent to the Lean registry model and run with "
+                "the real API: outcome class, registry (names, order, object identity), `defined`, parameters of the reachable "
+                "leaves, values of all Parameter objects after every operation, matrices at every evaluation (non-trivial = "
+                "contains a copy and an assign)")
     chk.assumptions = ["leaf matrices are taken from each leaf's own compute_unitary() (their correctness is C14)"]
     chk.required_branches = ["merge", "nest", "floordiv", "matmul", "barrier", "copy", "lead-leaf", "rejected",
                              "hist-nest-by-reference", "hist-merge", "hist-reevaluated-after-growth", "hist-copy",
@@ -1042,7 +1742,7 @@ def run(chk: core.Check):
                              "hist-eval-through-shallow-handle", "hist-symbolic-substituted", "hist-rejected",
                              "hist-set-through-assign",
                              "symbolic", "param-value-changed-after-assembly", "param-matmul", "param-symbolic-substituted"] + \
-                            ["symbolic-leaf-" + t for t in ("BS", "PS", "PERM", "U", "UH", "Barrier")]
+                            ["symbolic-leaf-" + t for t in ("BS", "PS", "PERM", "U", "UH", "Barrier")] + RH_BRANCHES
     chk.lean = core.LeanDriver("C01")
     rng = chk.rng
     n = chk.pick(500, 8000)
@@ -1053,6 +1753,8 @@ def run(chk: core.Check):
     for entry in load_corpus():
         if "pool_history" in entry:
             handle_history(chk, entry["pool_history"])
+        elif "reg_history" in entry:
+            handle_reg_history(chk, entry["reg_history"])
         else:
             handle(chk, entry["program"])
     batch = []
@@ -1071,6 +1773,8 @@ def run(chk: core.Check):
         m = rng.randint(2, 5)
         e = gen_circ(rng, m, rng.randint(0, 2), rng.randint(2, 8))
         handle_param_program(chk, strip_for_params(rng, e, [0]))
+    for _ in range(chk.pick(250, 3000)):
+        handle_reg_history(chk, gen_reg_history(rng, rng.randint(6, chk.pick(20, 32)), chk.pick(4, 5)))
 
 
 def count_ops(chk, e):
@@ -1141,5 +1845,8 @@ def replay(chk, data):
         if key in data["replay"]:
             handle_history(chk, data["replay"][key])
             return
+    if "reg_history" in data["replay"]:
+        handle_reg_history(chk, data["replay"]["reg_history"])
+        return
     expr = data["replay"]["program"]
     handle(chk, expr)
